@@ -250,7 +250,14 @@ def check_command(case):
 
 _txt = st.one_of(st.text(max_size=6),
                  st.text(alphabet=st.sampled_from(list(u"ab {}[]:,#'\"-\\/\n\t?&*!|>%@`") + [u"é", u"中", u" ", u"😀"]), max_size=8),
-                 st.sampled_from(["null", "true", "no", "~", "1", "1.5", "2001-01-01", "{", "[", "- a", "a: b", ""]))
+                 st.sampled_from(["null", "true", "no", "~", "1", "1.5", "2001-01-01", "{", "[", "- a", "a: b", ""]),
+                 # embedded files (a script in a config map, a unit file): several lines, some of which look like
+                 # comments, document markers or keys of the enclosing format
+                 st.lists(st.sampled_from(["#!/bin/sh", "# a comment", "echo a", "  # indented comment", "x = 1 # tail",
+                                           "", "#", "key: value", "- item", "---", "...", "[section]", ";semi"]),
+                          min_size=2, max_size=5).map(lambda ls: "\n".join(ls)),
+                 st.lists(st.sampled_from(["#!/bin/sh", "# a comment", "echo a", "#"]), min_size=1, max_size=3).map(
+                     lambda ls: "\n".join(ls) + "\n"))
 _scalar = st.one_of(st.none(), st.booleans(), st.integers(-10 ** 6, 10 ** 6), st.integers(-10 ** 30, 10 ** 30),
                     st.floats(allow_nan=False, allow_infinity=False), _txt)
 
@@ -511,7 +518,8 @@ def _yaml_case(draw):
     text = yaml.safe_dump(value, default_flow_style=draw(st.sampled_from([False, False, True, None])),
                           allow_unicode=draw(st.booleans()), indent=draw(st.sampled_from([None, 2, 4])),
                           width=draw(st.sampled_from([80, 20, 1000])), explicit_start=draw(st.booleans()),
-                          sort_keys=draw(st.booleans()))
+                          sort_keys=draw(st.booleans()),
+                          default_style=draw(st.sampled_from([None, None, None, None, "|", "|", ">", "'", '"'])))
     lines = text.split("\n")
     if kind == "truncate":
         p = draw(st.integers(1, max(1, len(text) - 1)))
